@@ -359,7 +359,8 @@ class Runner:
             if o is None or "diags" not in o:
                 self.stats["programs_dropped_reference_unusable"] += 1
                 continue
-            if "VERIF_PREDECESSOR_ONLY = True" in self.programs[pid]:
+            if "VERIF_PREDECESSOR_ONLY" in self.programs[pid]:
+                # (the marker's value is not looked at: the litswap sibling turns `True` into `1`)
                 # programs that exhaust the recursion limit: their own diagnostics legitimately depend
                 # on how warm the caches are (a hit is a shallower call chain than a miss), so they are
                 # never compared - but they stay in the histories, where the exceptions they provoke
